@@ -2,10 +2,12 @@
    send_dep_req_recv_dep_res, Target.exchange / send_dep_res_recv_dep_req, and the air
    with a fault script.  Definitions only.
 
-   The model is of the REPAIRED code (fixes/c04-*.diff):
+   The model is of the tree with the four committed repairs (b836295, 7efe465, 0d645cb, 2786f8b).  NOT repaired
+   (pinned by tests/test_dep.py::test_exchange_retransmission_invalid_response): request_retransmission
+   rejects a retransmitted ACK, so a corrupted ACK response during initiator chaining is not recovered.
+   Repairs modelled:
      - Target.activate: miu = lr - 3 - [did] - [nad]
      - Initiator ATN carries DID/NAD like the other supervisory PDUs
-     - request_retransmission accepts a retransmitted ACK
      - Target answers a repeated RTOX request by retransmission unless it is itself waiting for it
      - Target.exchange(None) returns None when released before the first information PDU
 
@@ -450,7 +452,7 @@ Fixpoint req_nak (n : nat) (ic : icfg) (tc : tcfg) (p : Z) (rwt deadline : Z) (w
       | (Err _, w1) => req_nak n' ic tc p rwt deadline w1
       | (Ok (PDepRes d), w1) =>
           if fmt d =? F_RTOX then (Err ProtocolError, w1)
-          else if negb ((fmt d =? F_INF) || (fmt d =? F_MORE) || (fmt d =? F_ACK)) then (Err ProtocolError, w1)
+          else if negb ((fmt d =? F_INF) || (fmt d =? F_MORE)) then (Err ProtocolError, w1)   (* also for a retransmitted ACK *)
           else (Ok (PDepRes d), w1)
       | (Ok _, w1) => (Crash AttributeErr, w1)
       | (Crash x, w1) => (Crash x, w1)
